@@ -127,7 +127,7 @@ fn env_random(m: &HashMap<String, String>) {
     let only: i64 = num(m, "only", -1);
     let kind: u64 = num(m, "kind", 0);          // 0 Env, 1 MarketEnv, 2 Market
     let fam = EnvFamily { max_batch: num(m, "maxbatch", 6), small_step: num(m, "smallstep", 0u32) == 1, toggles: num(m, "toggles", 1u32) == 1,
-                          rounds: num(m, "rounds", 6), asym: num(m, "asym", 0u32) == 1, distinct_batch: num(m, "distinct", 0u32) == 1 };
+                          rounds: num(m, "rounds", 6), asym: num(m, "asym", 0u32) == 1, distinct_batch: num(m, "distinct", 0u32) == 1, extreme: false };
     let out = std::io::stdout();
     let mut w = BufWriter::with_capacity(1 << 20, out.lock());
     let mut st = EStats::new();
@@ -136,14 +136,20 @@ fn env_random(m: &HashMap<String, String>) {
         if only >= 0 && i as i64 != only { continue; }
         let mut g = Sm(seed.wrapping_mul(0x9E3779B97F4A7C15) ^ (i + 1).wrapping_mul(0xC2B2AE3D27D4EB4F) ^ kind);
         let rseed = g.next() >> (g.below(50) as u32);
-        let t0 = g.below(2000);
-        let step: u64 = if fam.small_step { 1 + g.below(3) } else { *g.pick(&[10u64, 100, 1000, 1_000_000]) };
+        // extreme mode: clocks around multiples of 2^32 and far beyond, step sizes above 2^32, large ticks,
+        // a few huge volumes, mirrored prices
+        let extreme = !fam.asym && !fam.distinct_batch && g.chance(1, 5);
+        let mut fam = fam.clone();
+        fam.extreme = extreme;
+        let t0 = if extreme { let (x, y, z) = ((1u64 << 32) - 1 - g.below(40), (1u64 << 40) + g.below(1000), g.next() >> 6); *g.pick(&[x, y, z]) } else { g.below(2000) };
+        let step: u64 = if fam.small_step { 1 + g.below(3) } else if extreme { *g.pick(&[1u64 << 32, (1u64 << 33) + 7, 4_000_000_000]) } else { *g.pick(&[10u64, 100, 1000, 1_000_000]) };
         let trading = !(fam.toggles && g.chance(1, 6));
         let mut rng = new_rng(rseed);
-        macro_rules! go_env { ($l:expr) => {{ let ticks = [1 + g.below(5) as u32];
+        let pick_tick = |g: &mut Sm| -> u32 { if extreme && g.chance(1, 2) { *g.pick(&[1u32, 3, 5, 17, 257, 65537]) } else { 1 + g.below(10) as u32 } };
+        macro_rules! go_env { ($l:expr) => {{ let ticks = [pick_tick(&mut g)];
             let mut t = TEnv::<$l>(Env::<$l>::new(t0, ticks[0], step, trading));
             env_script(&mut w, &mut st, i, &mut t, &mut rng, &mut g, $l, rseed, t0, step, trading, &ticks, &fam); }} }
-        macro_rules! go_menv { ($a:expr, $l:expr) => {{ let ticks: [u32; $a] = core::array::from_fn(|_| 1 + g.below(5) as u32);
+        macro_rules! go_menv { ($a:expr, $l:expr) => {{ let ticks: [u32; $a] = core::array::from_fn(|_| pick_tick(&mut g));
             let mut t = TMEnv::<$a, $l>(MarketEnv::<$a, $l>::new(t0, ticks, step, trading));
             env_script(&mut w, &mut st, i, &mut t, &mut rng, &mut g, $l, rseed, t0, step, trading, &ticks, &fam); }} }
         macro_rules! go_market { ($a:expr, $l:expr) => {{ let ticks: [u32; $a] = core::array::from_fn(|_| 1 + g.below(5) as u32);
